@@ -126,6 +126,11 @@ type T struct {
 	// signed value range of a bit-vector term (valid when ROK), computed at construction
 	RLo, RHi int64
 	ROK      bool
+	// variable support: NV = number of distinct variables (capped at 2 = "several"),
+	// V1 = the variable when NV == 1
+	NV uint8
+	V1 *T
+	tt *[4]uint64 // truth table over V1's values (Bool terms with a single variable of <= 8 bits)
 }
 
 func (t *T) IsConst() bool { return t.Op == OConst }
@@ -173,7 +178,73 @@ func (tb *Table) mk(op Op, s Sort, x, y, z *T, c uint64, name string) *T {
 	if s.K == KBV {
 		t.RLo, t.RHi, t.ROK = computeRange(t)
 	}
+	if op == OVar {
+		t.NV, t.V1 = 1, t
+	} else {
+		for _, a := range [3]*T{x, y, z} {
+			if a == nil || a.NV == 0 {
+				continue
+			}
+			switch {
+			case t.NV == 0:
+				t.NV, t.V1 = a.NV, a.V1
+			case a.NV >= 2 || t.NV >= 2 || a.V1 != t.V1:
+				t.NV, t.V1 = 2, nil
+			}
+		}
+	}
 	return t
+}
+
+// SmallVar reports whether t depends on exactly one variable of at most 8 bits.
+func (t *T) SmallVar() *T {
+	if t.NV == 1 && t.V1 != nil && t.V1.S.K == KBV && t.V1.S.W <= 8 {
+		return t.V1
+	}
+	return nil
+}
+
+// TruthTable returns, for a Bool term over a single small variable, the set of values of
+// that variable for which the term holds (bit i of the 256-bit set).
+func (t *T) TruthTable() *[4]uint64 {
+	if t.tt != nil {
+		return t.tt
+	}
+	v := t.SmallVar()
+	if v == nil || t.S.K != KBool {
+		return nil
+	}
+	var tt [4]uint64
+	n := 1 << v.S.W
+	m := Model{}
+	for val := 0; val < n; val++ {
+		m[v.Name] = uint64(val)
+		e := &Evaluator{M: m, cache: make(map[*T]uint64, 64)}
+		if e.Eval(t) == 1 {
+			tt[val>>6] |= 1 << (uint(val) & 63)
+		}
+	}
+	t.tt = &tt
+	return t.tt
+}
+
+// Vars collects the distinct variables of t.
+func (t *T) Vars(seen map[*T]bool, out map[*T]bool) {
+	if t == nil || t.NV == 0 || seen[t] {
+		return
+	}
+	seen[t] = true
+	if t.Op == OVar {
+		out[t] = true
+		return
+	}
+	if t.NV == 1 {
+		out[t.V1] = true
+		return
+	}
+	t.X.Vars(seen, out)
+	t.Y.Vars(seen, out)
+	t.Z.Vars(seen, out)
 }
 
 func addOvf(a, b int64) (int64, bool) {
@@ -1473,6 +1544,11 @@ func (e *Evaluator) eval(t *T) uint64 {
 type Facts struct {
 	M    map[*T]uint64
 	memo map[*T]pres
+	// Allowed[v]: values of the small variable v admitted by the single-variable conjuncts
+	// of the path condition (an over-approximation of the admitted values; exact when the
+	// variable is not Dirty, i.e. occurs in no multi-variable conjunct).
+	Allowed map[*T]*[4]uint64
+	Dirty   map[*T]bool
 }
 
 type pres struct {
@@ -1480,7 +1556,71 @@ type pres struct {
 	ok bool
 }
 
-func NewFacts() *Facts { return &Facts{M: map[*T]uint64{}, memo: map[*T]pres{}} }
+func NewFacts() *Facts {
+	return &Facts{M: map[*T]uint64{}, memo: map[*T]pres{}, Allowed: map[*T]*[4]uint64{}, Dirty: map[*T]bool{}}
+}
+
+func fullSet(w uint8) [4]uint64 {
+	var s [4]uint64
+	n := 1 << w
+	for i := 0; i < n; i++ {
+		s[i>>6] |= 1 << (uint(i) & 63)
+	}
+	return s
+}
+
+// AllowedSet returns the current value set of small variable v.
+func (f *Facts) AllowedSet(v *T) [4]uint64 {
+	if s, ok := f.Allowed[v]; ok {
+		return *s
+	}
+	return fullSet(v.S.W)
+}
+
+// AddConjunct records a path-condition conjunct for the small-variable analysis.
+func (f *Facts) AddConjunct(c *T) {
+	if v := c.SmallVar(); v != nil {
+		tt := c.TruthTable()
+		cur := f.AllowedSet(v)
+		for i := range cur {
+			cur[i] &= tt[i]
+		}
+		f.Allowed[v] = &cur
+		return
+	}
+	if c.NV == 0 {
+		return
+	}
+	vars := map[*T]bool{}
+	c.Vars(map[*T]bool{}, vars)
+	for v := range vars {
+		f.Dirty[v] = true
+	}
+}
+
+// SmallVarVerdict decides an alternative over a single small variable without the solver:
+// refuted (no admitted value satisfies it), or — when the variable is clean — feasible
+// with a witness value.
+func (f *Facts) SmallVarVerdict(c *T) (decided bool, feasible bool, v *T, witness uint64) {
+	v = c.SmallVar()
+	if v == nil || c.S.K != KBool {
+		return false, false, nil, 0
+	}
+	tt := c.TruthTable()
+	cur := f.AllowedSet(v)
+	for i := range cur {
+		cur[i] &= tt[i]
+	}
+	for i, w := range cur {
+		if w != 0 {
+			if f.Dirty[v] {
+				return false, false, v, 0
+			}
+			return true, true, v, uint64(i*64 + bits.TrailingZeros64(w))
+		}
+	}
+	return true, false, v, 0
+}
 
 // Add records the consequences of asserting c.
 func (f *Facts) Add(c *T) {
